@@ -360,11 +360,13 @@ Definition positive_answer_state (qname : name) (qtype : N) (maxc : N) (gs : lis
   match validate_groups (map a_state gs) with
   | None => Ok (Some Bogus)
   | Some _ =>
+      let init := if answer_init_is_const then Secure
+                  else fold_left (fun acc g => map_maybe_secure (a_state g) acc) gs Secure in
       do r <- cname_chase (S (N.to_nat maxc + 1)) 0 maxc qname qtype gs Secure;
       match r with
       | None => Ok None
       | Some (sname, st) =>
-          let maybe := map_maybe_secure st Secure in
+          let maybe := map_maybe_secure st init in
           if vstate_eqb maybe Bogus then Ok (Some Bogus)
           else match get_answer_state sname qtype gs with
                | None => Ok None
@@ -372,6 +374,47 @@ Definition positive_answer_state (qname : name) (qtype : N) (maxc : N) (gs : lis
                            else Ok (Some (map_maybe_secure (a_state g) maybe))
                end
       end
+  end.
+
+(* validate_msg for a reply with an empty answer section whose authority section
+   holds a secure SOA (signer [signer]) and the groups [gs] (no NSEC3 records):
+   NOERROR -> nsec_for_nodata, then nsec_for_nodata_wildcard, then the NSEC3
+   helpers which find nothing (ede 9); NXDOMAIN -> nsec_for_nxdomain, then NSEC3.
+   ede 99 stands for the ede of the group on which validate_groups aborted. *)
+Definition negative_msg_state (nx : bool) (target : name) (qtype : N) (signer : name)
+  (gs : list (vgroup * vstate)) : outcome (vstate * N) :=
+  match validate_groups (map snd gs) with
+  | None => Ok (Bogus, 99)
+  | Some _ =>
+      let groups := map fst gs in
+      if nx then
+        do r <- nsec_for_nxdomain target groups signer;
+        match r with
+        | (NxExists, e) => Ok (Bogus, e)
+        | (NxDoesNotExist _, e) => Ok (Secure, e)
+        | (NxNothing, _) => Ok (Bogus, 9)
+        end
+      else
+        do r <- nsec_for_nodata target groups qtype signer;
+        match r with
+        | (NoData, e) => Ok (Secure, e)
+        | (NNothing, _) =>
+            do r2 <- nsec_for_nodata_wildcard target groups qtype signer;
+            match r2 with
+            | (NoData, e) => Ok (Secure, e)
+            | (NNothing, _) => Ok (Bogus, 9)
+            end
+        end
+  end.
+
+(* validate_msg for a NOERROR reply with an empty authority section and no
+   wildcard / DNAME groups in the answer: when nothing answers the (chased)
+   question the negative path finds no SOA and the verdict is bogus *)
+Definition answer_msg_state (qname : name) (qtype : N) (maxc : N) (gs : list agroup) : outcome vstate :=
+  do r <- positive_answer_state qname qtype maxc gs;
+  match r with
+  | Some s => Ok s
+  | None => Ok Bogus
   end.
 
 (* ---- entry points for the correspondence driver *)
